@@ -57,34 +57,42 @@ class Graph:
         return None
 
     def cover(self, maxlen=12, rng=None, limit=None):
-        """Paths (lists of edge indices) from an initial state covering every reachable edge at least once."""
+        """Paths (lists of edge indices) from an initial state covering every reachable edge at least once.
+
+        One breadth-first tree gives every state its shortest prefix from an initial state; every edge not yet
+        covered then starts a path  prefix(from) + edge  that is extended greedily through further uncovered
+        edges.  Linear in the size of the graph (the first version searched anew for every path: quadratic)."""
+        prefix = {}
+        q = deque()
+        for ik, _ in self.inits:
+            if ik not in prefix:
+                prefix[ik] = []
+                q.append(ik)
+        while q:
+            k = q.popleft()
+            for ei in self.out.get(k, ()):
+                tk = self.edges[ei][2]
+                if tk not in prefix and len(prefix[k]) + 1 < maxlen:
+                    prefix[tk] = prefix[k] + [ei]
+                    q.append(tk)
         covered = set()
         paths = []
-        while True:
-            best = None
-            for ik, _ in self.inits:
-                p = self._bfs_to_uncovered(ik, covered)
-                if p is not None and (best is None or len(p) < len(best)):
-                    best = p
-            if best is None:
-                break
-            path = list(best)
-            covered.update(path)
-            cur = self.edges[path[-1]][2]
+        order = list(range(len(self.edges)))
+        # deepest edges first: their prefixes cover the shallow ones on the way
+        order.sort(key=lambda ei: -len(prefix.get(self.edges[ei][0], [])))
+        for ei in order:
+            if ei in covered or self.edges[ei][0] not in prefix:
+                continue
+            path = prefix[self.edges[ei][0]] + [ei]
+            cur = self.edges[ei][2]
             while len(path) < maxlen:
-                cand = [ei for ei in self.out.get(cur, ()) if ei not in covered]
+                cand = [e for e in self.out.get(cur, ()) if e not in covered and e not in path]
                 if not cand:
-                    ext = self._bfs_to_uncovered(cur, covered)
-                    if ext is None or len(path) + len(ext) > maxlen:
-                        break
-                    path.extend(ext)
-                    covered.update(ext)
-                    cur = self.edges[path[-1]][2]
-                    continue
-                ei = rng.choice(cand) if rng else cand[0]
-                path.append(ei)
-                covered.add(ei)
-                cur = self.edges[ei][2]
+                    break
+                nxt = rng.choice(cand) if rng else cand[0]
+                path.append(nxt)
+                cur = self.edges[nxt][2]
+            covered.update(path)
             paths.append(path)
             if limit and len(paths) >= limit:
                 break
